@@ -90,6 +90,13 @@ class M:
             return self.cond(inner(e)[0])
         if k == "UnaryOperator" and e.get("opcode") == "!":
             return "(CNot %s)" % self.cond(inner(e)[0])
+        if k in ("BinaryOperator", "CXXOperatorCallExpr") and len(inner(e)) >= 2:
+            ops = inner(e)[-2:]
+            op = e.get("opcode") or src_text(strip(inner(e)[0])).replace("operator", "")
+            nul = [strip(x).get("kind") == "CXXNullPtrLiteralExpr" for x in ops]
+            dat = [self.is_data(x) for x in ops]
+            if op in ("!=", "==") and ((nul[0] and dat[1]) or (nul[1] and dat[0])):      # data_ != nullptr / data_ == nullptr
+                return "CData" if op == "!=" else "(CNot CData)"
         if self.is_data(e):
             return "CData"
         if self.is_param(e) and self.param_is_optional():
